@@ -38,7 +38,11 @@ def mask (i : Inst) (s : State) (a : Nat) : Bool :=
   if a = 0 then !(s.cur == 0 && anyLoc i s) else locOk i s a
 
 /-- amount handed over when `a` is visited: `min(selected_demand, vehicle_capacity - used_capacity)` -/
-def delivered (i : Inst) (s : State) (a : Nat) : Int := min (s.rem a) (i.cap - s.used)
+def delivered (i : Inst) (s : State) (a : Nat) : Int :=
+  -- callee (`torch.min`) and second operand (`vehicle_capacity - used_capacity`) are extracted from the source;
+  -- any other shape is modelled as "hand over the whole remaining demand"
+  if Params.sdvrpStepDeliverIsMin && Params.sdvrpStepFreeIsCapMinusUsed then min (s.rem a) (i.cap - s.used)
+  else s.rem a
 
 /-- `(demand_with_depot > 0).any(-1)` over all n+1 entries -/
 def anyRem (n : Nat) (rem : Nat → Int) : Bool :=
@@ -49,7 +53,7 @@ def step (i : Inst) (s : State) (a : Nat) : State :=
   let del := delivered i s a
   let rem' := upd s.rem a (s.rem a - del)            -- `scatter_add(-1, current_node, -delivered)`
   { cur := a
-    used := if a ≠ 0 then s.used + del else 0
+    used := if Params.sdvrpStepDepotCmp.evalNat a 0 then s.used + del else 0   -- `(…) * (current_node != 0)`
     rem := rem'
     done := !(anyRem i.n rem') }
 
